@@ -16,27 +16,18 @@ object whose elements are symbolic tags `0 … n-1` (C order).  The whole histor
          C<pos>_<f1.f2.…>  stack: the current object at position pos among fresh operands (one 0/1 string of
                            flags per operand, `-` for none); fresh operands get the next free tags
          U unit   I inverse   N negation
-answer: `<shape> <elems> <flags> <meta>` with elems = `tag.<neg><conj><scale><inexact>` joined by `,` (or `-`),
+answer: `<shape> <elems> <flags> <meta>` with elems = `tag.<history>` joined by `,` (or `-`); history = letters u/i/n
+(unit, inverse, negation) in the order applied,
 or `!err <index|value|dimension|internal|parse>`.
 -/
 namespace Orix.Driver.ND
 open Orix Proto NDArray
 
-/-- symbolic element: table entry `tag`, negated?, conjugated?, divided by |q|^scale, went through a division? -/
-structure Sym where
-  tag : Nat
-  neg : Bool
-  conj : Bool
-  scale : Nat
-  inexact : Bool
-  deriving Repr, DecidableEq
+/-- the driver runs programs on the index object of `OrixProofs.Properties.C16.run_index_array`: elements are
+`SymE` (source tag + history of element-wise operations), element-wise operations only record themselves -/
+abbrev Sym := SymE
 
-def symOps : ElemOps Sym where
-  unit s := { s with scale := 1, inexact := true }
-  inv s := { s with conj := !s.conj, scale := (match s.scale with | 0 => 2 | 1 => 1 | _ => 0), inexact := true }
-  neg s := { s with neg := !s.neg }
-
-def fresh (t : Nat) : Sym := ⟨t, false, false, 0, false⟩
+def fresh (t : Nat) : Sym := ⟨t, []⟩
 
 def parseCls : String → Option Cls
   | "Q" => some .quaternion | "R" => some .rotation | "M" => some .misorientation
@@ -64,7 +55,10 @@ def parseItem (s : String) : Option KeyItem :=
   | _ => none
 
 def bit (b : Bool) : String := if b then "1" else "0"
-def showSym (s : Sym) : String := s!"{s.tag}.{bit s.neg}{bit s.conj}{s.scale}{bit s.inexact}"
+def showE : EOp → String
+  | .unit => "u" | .inv => "i" | .neg => "n"
+/-- `tag.<history, oldest operation first>` -/
+def showSym (s : Sym) : String := s!"{s.src}." ++ String.join (s.hist.reverse.map showE)
 def showErr : NDErr → String
   | .index => "!err index" | .value => "!err value" | .dimension => "!err dimension" | .internal => "!err internal"
 
